@@ -57,7 +57,9 @@ type vfC01Model struct {
 	lastPoss time.Duration
 }
 
-func vfC01NewModel(t0 time.Duration) *vfC01Model { return &vfC01Model{t0: t0, bk: map[int64]*[3]int64{}} }
+func vfC01NewModel(t0 time.Duration) *vfC01Model {
+	return &vfC01Model{t0: t0, bk: map[int64]*[3]int64{}}
+}
 
 func (m *vfC01Model) idx(t time.Duration) int64 { return int64((t - m.t0) / vfC01BucketDur) }
 
